@@ -47,6 +47,7 @@ VARIABLES
     ridx,       \* set of oids held by the remote index of IdxStore
     delivered,  \* history: delivered[s] = oids ever observed present in s
     opened,     \* history: stores touched by tampering / external deletion / shallow gc
+    gced,       \* history: stores from which gc removed something
     unfin,      \* history: local objects whose protection was cut short by an abort
     dev,        \* ghost: known-finding deviations taken
     nx,         \* history: number of transfers begun
@@ -68,7 +69,7 @@ VARIABLES
     bk          \* which dest.add() call `batch` belongs to: "none" | "bound" | "dir" | "loose"
 
 tvars == <<ph, xs, todo, cur, bound, curFails, pend, loose, failed, okDirs, batch, lost, bk>>
-hvars == <<delivered, opened, unfin, dev, nx>>
+hvars == <<delivered, opened, gced, unfin, dev, nx>>
 vars  == <<store, ridx, hvars, act, last, tvars>>
 view  == <<store, ridx, hvars, last, tvars>>
 
@@ -161,14 +162,14 @@ AddObj(s, x) ==
           /\ delivered' = NoteDelivered(S2)
           /\ last' = [op |-> "add", new |-> new]
     /\ act' = [op |-> "AddObj", s |-> s, x |-> x]
-    /\ UNCHANGED <<ridx, opened, unfin, dev, nx>> /\ NoXfer
+    /\ UNCHANGED <<ridx, opened, gced, unfin, dev, nx>> /\ NoXfer
 
 \* user edits an object in place (after making it writable): bytes no longer match
 Tamper(s, o) ==
     /\ Idle /\ "tamper" \in Ops
     /\ o \in Files /\ Present(store, s, o)
     /\ store' = [store EXCEPT ![s][o] = "bad_u"]
-    /\ opened' = opened \cup {s}
+    /\ opened' = opened \cup {s} /\ UNCHANGED gced
     /\ act' = [op |-> "Tamper", s |-> s, o |-> o]
     /\ last' = [op |-> "tamper"]
     /\ UNCHANGED <<ridx, delivered, unfin, dev, nx>> /\ NoXfer
@@ -177,7 +178,7 @@ ExtDelete(s, o) ==
     /\ Idle /\ "extdel" \in Ops
     /\ Present(store, s, o)
     /\ store' = [store EXCEPT ![s][o] = Absent]
-    /\ opened' = opened \cup {s}
+    /\ opened' = opened \cup {s} /\ UNCHANGED gced
     /\ act' = [op |-> "ExtDelete", s |-> s, o |-> o]
     /\ last' = [op |-> "extdel"]
     /\ UNCHANGED <<ridx, delivered, unfin, dev, nx>> /\ NoXfer
@@ -231,13 +232,14 @@ Gc(s, used, foreign, shallow, dry, ro) ==
     /\ LET loadable == shallow \/ \A d \in used \cap Dirs : Present(store, s, d)
            removed  == PresentSet(store, s) \ GcKeep(used, shallow)
        IN IF ro THEN /\ last' = [op |-> "gc", exc |-> "ObjectDBPermissionError"]
-                     /\ UNCHANGED <<store, opened>>
+                     /\ UNCHANGED <<store, opened, gced>>
           ELSE IF ~loadable THEN /\ last' = [op |-> "gc", exc |-> "FileNotFoundError"]
-                                 /\ UNCHANGED <<store, opened>>
+                                 /\ UNCHANGED <<store, opened, gced>>
           ELSE /\ last' = [op |-> "gc", removed |-> Cardinality(removed)]
                /\ store' = IF dry THEN store
                            ELSE [store EXCEPT ![s] = [o \in Oids |-> IF o \in removed THEN Absent ELSE @[o]]]
                /\ opened' = IF ~dry /\ shallow /\ used \cap Dirs # {} THEN opened \cup {s} ELSE opened
+               /\ gced' = IF ~dry /\ removed # {} THEN gced \cup {s} ELSE gced
     /\ act' = [op |-> "Gc", s |-> s, used |-> used, foreign |-> foreign, shallow |-> shallow, dry |-> dry, ro |-> ro]
     /\ UNCHANGED <<ridx, delivered, unfin, dev, nx>> /\ NoXfer
 
@@ -271,7 +273,7 @@ TransferBegin(src, dst, req, shallow, F, verify, useIdx) ==
     /\ act' = [op |-> "TransferBegin", src |-> src, dst |-> dst, req |-> req, shallow |-> shallow, F |-> F,
                verify |-> verify, idx |-> useIdx]
     /\ nx' = nx + 1
-    /\ UNCHANGED <<delivered, unfin, dev>>
+    /\ UNCHANGED <<delivered, gced, unfin, dev>>
 
 \* the decision on directory d once all files it claimed were attempted.
 \* Intended rule (and the code after the F1 repair): withhold the directory object
@@ -313,7 +315,7 @@ Pick(d) ==
                      /\ cur' = IF dc.pend = None THEN None ELSE d
     /\ act' = [op |-> "Pick", d |-> d]
     /\ last' = [op |-> "pick"]
-    /\ UNCHANGED <<ridx, delivered, opened, unfin, nx, xs, okDirs, ph>>
+    /\ UNCHANGED <<ridx, delivered, opened, gced, unfin, nx, xs, okDirs, ph>>
 
 \* one upload (fs.put_file of one object); fails iff the object is in F
 PutRes(x) == IF x \in xs.F THEN "fail" ELSE "ok"
@@ -336,7 +338,7 @@ PutBound(x) ==
              ELSE /\ curFails' = cf /\ UNCHANGED <<failed, pend, dev, cur>>
     /\ act' = [op |-> "Put", x |-> x, res |-> PutRes(x)]
     /\ last' = [op |-> "put"]
-    /\ UNCHANGED <<ridx, opened, unfin, nx, xs, todo, loose, okDirs, ph, lost, bk>>
+    /\ UNCHANGED <<ridx, opened, gced, unfin, nx, xs, todo, loose, okDirs, ph, lost, bk>>
 
 PutDir(x) ==
     /\ ph = "run" /\ pend = x /\ x # None
@@ -352,7 +354,7 @@ PutDir(x) ==
     /\ pend' = None /\ cur' = None
     /\ act' = [op |-> "Put", x |-> x, res |-> PutRes(x)]
     /\ last' = [op |-> "put"]
-    /\ UNCHANGED <<ridx, opened, unfin, nx, xs, todo, bound, curFails, loose, ph>>
+    /\ UNCHANGED <<ridx, opened, gced, unfin, nx, xs, todo, bound, curFails, loose, ph>>
 
 \* `failed_ids.update(_add(src, dest, file_ids))` - the files no directory claimed
 LooseReady == ph = "run" /\ todo = {} /\ cur = None /\ pend = None
@@ -373,7 +375,7 @@ PutLoose(x) ==
     /\ loose' = loose \ {x}
     /\ act' = [op |-> "Put", x |-> x, res |-> PutRes(x)]
     /\ last' = [op |-> "put"]
-    /\ UNCHANGED <<ridx, opened, unfin, nx, xs, todo, cur, bound, curFails, pend, okDirs, ph>>
+    /\ UNCHANGED <<ridx, opened, gced, unfin, nx, xs, todo, cur, bound, curFails, pend, okDirs, ph>>
 
 \* _do_transfer returns; transfer() builds TransferResult(status.new - failed, failed)
 TransferEnd ==
@@ -387,7 +389,7 @@ TransferEnd ==
     /\ last' = [op |-> "transfer", transferred |-> xs.new \ failed, failed |-> failed]
     /\ ph' = "idle" /\ batch' = {} /\ bk' = "none"
     /\ act' = [op |-> "TransferEnd"]
-    /\ UNCHANGED <<opened, unfin, nx, xs, todo, cur, bound, curFails, pend, loose, failed, okDirs>>
+    /\ UNCHANGED <<opened, gced, unfin, nx, xs, todo, cur, bound, curFails, pend, loose, failed, okDirs>>
 
 \* the process dies (or an exception unwinds the transfer) at this point.  When the
 \* current batch is complete the kill may fall before or after add()'s epilogue
@@ -408,7 +410,7 @@ Abort ==
     /\ act' = [op |-> "Abort"]
     /\ last' = [op |-> "abort"]
     /\ batch' = {}
-    /\ UNCHANGED <<ridx, delivered, opened, nx, xs, todo, cur, bound, curFails, pend, loose, failed, okDirs, bk>>
+    /\ UNCHANGED <<ridx, delivered, opened, gced, nx, xs, todo, cur, bound, curFails, pend, loose, failed, okDirs, bk>>
 
 (********************************* Next ************************************)
 Faults(new) == IF nx >= 1 THEN {{}} ELSE {F \in SUBSET new : Cardinality(F) <= MaxFaults}
@@ -435,7 +437,7 @@ Next ==
 
 Init ==
     /\ store \in InitStores
-    /\ ridx = {} /\ delivered = [s \in Stores |-> PresentSet(store, s)] /\ opened = {} /\ unfin = {} /\ dev = {}
+    /\ ridx = {} /\ delivered = [s \in Stores |-> PresentSet(store, s)] /\ opened = {} /\ gced = {} /\ unfin = {} /\ dev = {}
     /\ nx = 0
     /\ act = [op |-> "Init"] /\ last = [op |-> "init"]
     /\ ph = "idle" /\ xs = [src |-> None] /\ todo = {} /\ cur = None /\ bound = {} /\ curFails = {}
@@ -474,11 +476,68 @@ Inv_C11 ==
         /\ C11_PresentUntouched(last)
         /\ (xs.src \notin opened => C11_Arrived(last, store))
 
-\* ---- C12 : the remote index never invents objects -------------------------
+\* ---- C12 : status exact, the remote index never invents objects -------------
+\* truth about store s in state S as an auditor sees it: an unprotected object whose
+\* bytes do not match its name does not count as there for a local store (C07)
+TrulyThere(S, s, o) == Present(S, s, o) /\ ~(Local(s) /\ S[s][o] = "bad_u")
+Refusal(L) == "exc" \in DOMAIN L
+\* S before, a = the Status action record, L = its result
+C12_StatusExact(S, a, L) ==
+    (~Refusal(L) /\ ~a.idx) =>
+        LET ids == Expand(a.ids, a.shallow)
+        IN /\ L.exists = {o \in ids : TrulyThere(S, a.s, o)}
+           /\ L.missing = ids \ L.exists
+C12_NoStaleDir(S, a, L) ==
+    (~Refusal(L) /\ a.idx) => \A d \in L.exists \cap Dirs : Present(S, a.s, d)
+C12_Compare(S, a, L) ==
+    ~Refusal(L) =>
+        LET ids == Expand(a.ids, a.shallow)
+            ea == {o \in ids : TrulyThere(S, a.a, o)}
+            eb == {o \in ids : TrulyThere(S, a.b, o)}
+        IN /\ L.ok = ea \cap eb /\ L.new = ea \ eb /\ L.deleted = eb \ ea /\ L.missing = ids \ (ea \cup eb)
 C12_Index(S, R, D) ==
-    IdxStore \in Stores =>
+    (IdxStore \in Stores /\ IdxStore \notin opened /\ IdxStore \notin gced) =>
+        \A h \in R : h \in D[IdxStore] \/ \E d \in Dirs : Present(S, IdxStore, d) /\ h \in Lists[d]
+C12_IndexX(S, R, D, op, gc) == (IdxStore \in Stores /\ IdxStore \notin op /\ IdxStore \notin gc) =>
         \A h \in R : h \in D[IdxStore] \/ \E d \in Dirs : Present(S, IdxStore, d) /\ h \in Lists[d]
 Inv_C12_Index == C12_Index(store, ridx, delivered)
+
+\* ---- C06 : garbage collection ------------------------------------------------
+\* S before, T after, a = the Gc action record, L = its result
+GcLoadable(S, a) == a.shallow \/ \A d \in a.used \cap Dirs : Present(S, a.s, d)
+C06_UsedKept(S, T, a, L) == (GcKeep(a.used, a.shallow) \cap PresentSet(S, a.s)) \subseteq PresentSet(T, a.s)
+C06_ReadOnly(S, T, a, L) == a.ro => (Refusal(L) /\ PresentSet(T, a.s) = PresentSet(S, a.s))
+C06_Dry(S, T, a, L) == a.dry => PresentSet(T, a.s) = PresentSet(S, a.s)
+C06_Exact(S, T, a, L) ==
+    (~a.ro /\ GcLoadable(S, a)) =>
+        /\ ~Refusal(L)
+        /\ L.removed = Cardinality(PresentSet(S, a.s) \ GcKeep(a.used, a.shallow))
+        /\ (~a.dry => PresentSet(T, a.s) = PresentSet(S, a.s) \cap GcKeep(a.used, a.shallow))
+\* a used directory that cannot be expanded: refusing and touching nothing is accepted
+C06_Refusal(S, T, a, L) == (~a.ro /\ ~GcLoadable(S, a)) => PresentSet(T, a.s) = PresentSet(S, a.s)
+
+\* ---- C07 : corrupted objects detected and dropped, intact ones unharmed -------
+C07_Check(S, T, a, L) ==
+    LET st == S[a.s][a.o] IN
+    /\ (st = "bad_u" => (L.res = "ObjectFormatError" /\ ~Present(T, a.s, a.o)))
+    /\ (st \in {"ok_u", "ok_p"} => (L.res = "ok" /\ Intact(T, a.s, a.o)))
+    /\ ((st \in {"ok_u", "ok_p"} /\ Local(a.s)) => T[a.s][a.o] = "ok_p")
+C07_QueryDrops(S, T, a, L) ==
+    (~Refusal(L) /\ ~a.idx /\ Local(a.s)) =>
+        \A o \in Expand(a.ids, a.shallow) : S[a.s][o] = "bad_u" => (~Present(T, a.s, o) /\ o \in L.missing)
+C07_IntactUnharmed(S, T) == \A s \in Stores, o \in Oids : Intact(S, s, o) => Intact(T, s, o)
+
+\* the step predicates as one action property over the design (act' identifies the step)
+StepProps ==
+    /\ (act'.op = "Status" => /\ C12_StatusExact(store, act', last') /\ C12_NoStaleDir(store, act', last')
+                               /\ C07_QueryDrops(store, store', act', last'))
+    /\ (act'.op = "CompareStatus" => C12_Compare(store, act', last'))
+    /\ (act'.op = "Gc" => /\ C06_UsedKept(store, store', act', last') /\ C06_ReadOnly(store, store', act', last')
+                           /\ C06_Dry(store, store', act', last') /\ C06_Exact(store, store', act', last')
+                           /\ C06_Refusal(store, store', act', last'))
+    /\ (act'.op = "Check" => C07_Check(store, store', act', last'))
+    /\ (act'.op \notin {"Tamper", "ExtDelete", "Gc"} => C07_IntactUnharmed(store, store'))
+StepPropsHold == [][StepProps]_vars
 
 \* ---- C01 : whatever dvc-data operations leave in a store matches its name --
 C01_Addressed == \A s \in Stores : s \notin opened => \A o \in Oids : store[s][o] \in {Absent, "ok_u", "ok_p"}
